@@ -134,7 +134,11 @@ def _simp_failures(e, req):
 
     r = claripy.simplify(e)
     miss = [a for a in req if a not in r.annotations]
-    return r, [f"annotation {a!r} missing after simplify" for a in miss]
+    out = [f"annotation {a!r} missing after simplify" for a in miss]
+    # the result is memoised per expression: a second call must keep the annotations as well
+    r2 = claripy.simplify(e)
+    out += [f"annotation {a!r} missing after a second simplify of the same expression (memoised result)" for a in req if a not in r2.annotations]
+    return r, out
 
 
 def run_simp(oid, params, tier):
